@@ -159,3 +159,19 @@ Proof.
       rewrite Nat.min_r by lia. rewrite !firstn_all2 by lia. reflexivity.
     + exists 0%nat. split; [cbn; lia|]. cbn. now rewrite app_nil_r.
 Qed.
+
+(* the same in the boolean form the check applies to implementation crash runs *)
+Corollary c07_every_crash_image_accepted c m be ops o : cfg_ok c ->
+  outside_known (env_of c m be) init ops = true ->
+  N.of_nat (length (offered_all ops)) + N.of_nat (length (offered o)) <= u64_max ->
+  sum_len (offered_all ops) + sum_len (offered o) <= u64_max ->
+  let v := env_of c m be in
+  let s := exec v init ops in
+  forall image, crash_image c v s o image ->
+  forall t0, c07_ok (stream_of s t0) (inflight o t0) (map out_of (stream_of image t0)) = true.
+Proof.
+  intros Hc Hout HB HBb. cbn zeta. intros image Hci t0.
+  destruct (c07_every_crash_image c m be ops o Hc Hout HB HBb image Hci t0) as (k & Hk & Hs).
+  apply c07_ok_spec. exists k. split; [exact Hk|].
+  rewrite !stream_of_stream, Hs. apply outs_are_map.
+Qed.
